@@ -31,7 +31,7 @@ def _one(args):
                 'rules': rules, 'keys': keys[:4],
                 # silent is expected for a documented miss, and for a seed of this property that another property's check catches
                 'expected_missed': bool(meta.get('missed')) or (bool(meta.get('detected_by')) and not any(x.startswith(pid) for x in meta['detected_by'])),
-                'negative': meta.get('property') == 'all'}
+                'negative': meta.get('property') == 'all', 'residual': meta.get('residual_alarm_in', [])}
     finally:
         shutil.rmtree(tmp, ignore_errors=True)
         import hashlib
@@ -68,7 +68,8 @@ def run_corpus(pid, workers=6):
     results = [r for r in results if not r.get('negative')]
     out = {'seeds': len(results),
            'refactors_silent': sorted(r['seed'] for r in neg if r['status'] == 'silent'),
-           'refactors_FALSE_ALARM': sorted(r['seed'] for r in neg if r['status'] not in ('silent', 'patch-does-not-apply')),
+           'refactors_FALSE_ALARM': sorted(r['seed'] for r in neg if r['status'] not in ('silent', 'patch-does-not-apply') and pid not in r.get('residual', [])),
+           'refactors_residual_alarm': sorted(r['seed'] for r in neg if r['status'] not in ('silent', 'patch-does-not-apply') and pid in r.get('residual', [])),
            'refactors_stale': sorted(r['seed'] for r in neg if r['status'] == 'patch-does-not-apply'),
            'detected': sorted(r['seed'] for r in results if r['status'] == 'detected'),
            'silent_expected': sorted(r['seed'] for r in results if r['status'] == 'silent' and r.get('expected_missed')),
@@ -86,7 +87,7 @@ if __name__ == '__main__':
     for pid in pids:
         rep[pid] = run_corpus(pid)
         r = rep[pid]
-        print('%s: %d seeds, %d detected, %d silent(expected), %d SILENT-UNEXPECTED %s, %d n/a %s; refactors silent %d, FALSE ALARMS %s' % (
+        print('%s: %d seeds, %d detected, %d silent(expected), %d SILENT-UNEXPECTED %s, %d n/a %s; refactors silent %d, documented residual alarms %s, FALSE ALARMS %s' % (
             pid, r['seeds'], len(r['detected']), len(r['silent_expected']), len(r['silent_unexpected']), r['silent_unexpected'],
-            len(r['not_applicable']), r['not_applicable'], len(r['refactors_silent']), r['refactors_FALSE_ALARM']))
+            len(r['not_applicable']), r['not_applicable'], len(r['refactors_silent']), r.get('refactors_residual_alarm', []), r['refactors_FALSE_ALARM']))
     json.dump(rep, open(os.path.join(VERIF, 'seeded', 'REPORT.json'), 'w'), indent=1)
